@@ -176,6 +176,38 @@ def matcher(case):
     return None
 
 
+def validate_regex_hypotheses(ck, tier):
+    """the theorems take the prompt search as a parameter with hypotheses (Fits.search_lines: MULTILINE search hits iff some single
+    line satisfies the line predicate; Fits.blank: invisible text never matches).  Check them against CPython for every driver's
+    real pattern on prompt-rich random buffers."""
+    import scrapli.driver as D
+    import scrapli.driver.core as C
+    rng = ck.rng
+    pats = {}
+    for name in ("IOSXEDriver", "IOSXRDriver", "NXOSDriver", "EOSDriver", "JunosDriver"):
+        pats[name] = getattr(C, name)(host="h").comms_prompt_pattern
+    pats["GenericDriver"] = D.GenericDriver(host="h").comms_prompt_pattern
+    frag = [b"r1#", b"r1>", b"r1(config)#", b"r1(config-if)#", b"RP/0/RP0/CPU0:xr#", b"u@h>", b"u@h# ", b"{master:0}", b"[edit]", b"%", b"root@h:~ # ", b"x-tcl#",
+            b"sw(config-s)#", b"", b" ", b"\t", b"abc def", b"Password:", b"a>b", b"#", b">", b"line one", b"r1# ", b"r1#  "]
+    n = 1500 if tier == "quick" else 15000
+    bad = 0
+    for name, pat in pats.items():
+        c = re.compile(pat.encode(), re.M | re.I)
+        for _ in range(n // len(pats)):
+            lines = [rng.choice(frag) + (bytes(rng.choice(b"ab1#> ") for _ in range(rng.choice([0, 0, 1, 3]))) if rng.random() < 0.3 else b"") for _ in range(rng.randint(1, 5))]
+            w = b"\n".join(lines)
+            whole = c.search(w) is not None
+            per_line = any(c.search(ln) is not None for ln in w.split(b"\n"))
+            ck.extra["regex_hypothesis_checks"] = ck.extra.get("regex_hypothesis_checks", 0) + 1
+            if whole != per_line:
+                bad += 1
+                ck.disagree("hypothesis Fits.search_lines (search hits iff a single line matches) vs CPython re", {"driver": name, "buffer": w.decode("latin1")}, f"whole={whole} per_line={per_line}")
+        for blank in (b"", b" ", b"\t ", b"  \t", b"\x0b", b" \x0c "):
+            if c.search(blank):
+                ck.disagree("hypothesis Fits.blank (invisible text never matches) vs CPython re", {"driver": name, "buffer": repr(blank)}, "")
+    return bad
+
+
 def run(tier, seed):
     ck = Check(PID, tier, seed, level="proof")
     ck.rule = ("scenario = driver (Generic + 5 core platforms) x stack (sync/asyncio) x hostname from the platform grammar (length 1..max) x "
@@ -206,6 +238,7 @@ def run(tier, seed):
                 ck.known_finding("F23", f["what"])
             elif wp:
                 ck.violation({"scenario": wsc.describe(), "problems": wp[:5]}, "stored witness of F23 now fails differently: " + wp[0])
+    validate_regex_hypotheses(ck, tier)
     scenarios = []
     corpus = VERIF / "corpus" / "C01" / "corpus.json"
     if corpus.exists():
